@@ -432,6 +432,48 @@ def _sweep(case, only_limits=None):
             res["violations"].append({"sig": {"invariant": inv, "mode": label if label != "replay" else "sweep",
                                               "launch": case["kind"]},
                                       "detail": detail + f" | limits={lim}", "replay": {"case": case, "limits": lim}})
+    # ---- the stretch between the last recorded row and the requested range: no row of the reference run lies there,
+    # so no abort point of the sweep above does either.  Every integration point of the same shot is made visible by a second
+    # reference run (tiny time step + extra data: recording does not influence integration); a limit set midway between
+    # two consecutive integration points that both lie before the requested range is violated before the range is
+    # reached, so the original request must end in a range error, not in a normal return
+    if only_limits is None and not ref["exc"] and len(ref["rows"]) >= 2 and ref["steps"] <= 60000:
+        range_ft = gen.to_feet(case["req"]["range"])
+        x_last = _vals(ref["rows"][-1])[2]
+        if 0 < x_last < range_ft * (1 - 1e-6) - 1e-6:
+            case_all = dict(case, req=dict(case["req"], extra=True, time_step=1e-9))
+            ref_all = _fire(case_all, case["relaxed"], steps, budget)
+            res["steps"] += ref_all["steps"]
+            pts = [r for r in ref_all["rows"] if x_last < _vals(r)[2] <= range_ft * (1 - 1e-9)] if not ref_all["exc"] else []
+            if len(pts) >= 2:
+                k = len(pts) // 2 - 1
+                (va, ya, _), (vb, yb, _) = _vals(pts[k]), _vals(pts[k + 1])
+                probes = []
+                if vb < va * (1 - 1e-9) and vb > 0:
+                    probes.append(("tail.v", {"cMinimumVelocity": (va + vb) / 2}))
+                if yb < ya - 1e-9 * max(1.0, abs(ya)):
+                    probes.append(("tail.d", {"cMaximumDrop": (ya + yb) / 2}))
+                    probes.append(("tail.a", {"cMinimumAltitude": case["alt0"] + (ya + yb) / 2}))
+                for label, lim in probes:
+                    # an earlier point may violate the limit too (non-monotone flight): then the abort simply comes earlier
+                    out = _fire(case, dict(case["relaxed"], **lim), steps, ref["steps"] + 1000)
+                    res["runs"] += 1
+                    res["steps"] += out["steps"]
+                    res["tail_probes"] = res.get("tail_probes", 0) + 1
+                    h.append([label, sorted(lim.items()), sha(out["rows"]), out["exc"]])
+                    if out["exc"] is None:
+                        res["violations"].append({"sig": {"invariant": "abort.missed_in_unrecorded_tail", "mode": "sweep",
+                                                          "launch": case["kind"]},
+                                                  "detail": f"a limit violated at an integration point between the last recorded "
+                                                            f"row ({x_last!r} ft) and the requested range ({range_ft!r} ft) was not "
+                                                            f"reported: the call returned normally | limits={lim}",
+                                                  "replay": {"case": case, "limits": lim, "whole_case": True}})
+                    else:
+                        for inv, detail in check_abort(case, ref, out, lim):
+                            res["violations"].append({"sig": {"invariant": inv, "mode": "sweep", "launch": case["kind"]},
+                                                      "detail": detail + f" | limits={lim}",
+                                                      "replay": {"case": case, "limits": lim}})
+
     # ---- the same truthfulness for range errors that come out of ZEROING (trajectory computations too; their partial
     # trajectory has a single row): stated reason violated by the last row, last_distance = that row's distance
     if only_limits is None and len(ref["rows"]) >= 3 and not ref["exc"]:
@@ -571,6 +613,7 @@ def summarise(records):
         "fault_kinds_fired": {"lib_abort.minimum_velocity": aborts["v"], "lib_abort.maximum_drop": aborts["d"],
                               "lib_abort.minimum_altitude": aborts["a"], "lib_abort.two_or_more_limits_at_once": multi},
         "limited_runs_that_completed_normally": completed,
+        "abort_points_between_last_recorded_row_and_requested_range": sum(r.get("tail_probes", 0) for r in records),
         "launch_kinds": kinds,
         "integration_steps_simulated": steps,
         "max_reference_steps_over_budget": round(maxratio, 4),
